@@ -1,8 +1,8 @@
 """C02 - Typed MessagePack decoding is indistinguishable from generic decoding.
 
-Proof: coq/theories/MsgPack (C02_equiv_guarded for every AST / float semantics / sanitiser /
-clock, C02_fallback_total, C02_accept_iff_guarded, and the two refutations C02_equiv_refuted,
-C02_skip_refuted that pin HOW the current code violates the property).
+Proof: coq/theories/MsgPack (C02_equiv for every AST / float semantics / sanitiser / clock,
+C02_fallback_total, C02_accept_iff - all without guard since commit 1ff6fb4 - and
+C02_old_witnesses_fall_back for the inputs on which the older code differed).
 Tie (correspondence): python generates width-tagged msgpack ASTs, encodes them to bytes with
 random header widths, the in-package harness runs the REAL MessagePackDecoder.Decode with the
 typed path on and off (controlled clock) and ArrowBuffer.convertColumnsToTyped on the generic
@@ -25,9 +25,8 @@ import lib_msgpack as mp
 from lib_msgpack import S, I, A, M, NIL, F32, F64
 
 AREA = "MsgPack"
-THEOREMS = [("Arc.MsgPack.Props", "C02_equiv_guarded"), ("Arc.MsgPack.Props", "C02_fallback_total"),
-            ("Arc.MsgPack.Props", "C02_accept_iff_guarded"), ("Arc.MsgPack.Props", "C02_equiv_refuted"),
-            ("Arc.MsgPack.Props", "C02_skip_refuted")]
+THEOREMS = [("Arc.MsgPack.Props", "C02_equiv"), ("Arc.MsgPack.Props", "C02_fallback_total"),
+            ("Arc.MsgPack.Props", "C02_accept_iff"), ("Arc.MsgPack.Props", "C02_old_witnesses_fall_back")]
 MODULES = ["Arc.MsgPack.Props"]
 TIE_NAME = "C02 correspondence (ingest.MessagePackDecoder.Decode typed on/off + convertColumnsToTyped vs Arc.MsgPack.Model.decode_with_typed/generic)"
 
@@ -149,7 +148,25 @@ def rcolumn(rng, n, name):
                 col[0] = base
             return col
         return [rtime_elem(rng) for _ in range(n)]
-    cls = rng.choice(["int", "int", "int", "f64", "f64", "f32", "str", "str", "bool", "nil", "mixed", "intf", "intf", "fint"])
+    cls = rng.choice(["int", "int", "int", "f64", "f64", "f32", "str", "str", "bool", "nil", "mixed", "intf", "intf", "fint",
+                      "strmix", "strmix"])
+    if cls == "strmix":
+        # string column: optional leading nils, a first string, then valid / invalid UTF-8 strings, bin and nil elements
+        bad = [b"\xff\xfe", b"ab\x80cd", b"\xc3", b"\xed\xa0\x80", b"ok\xf0\x9f"]
+        lead = rng.choice([0, 0, 1, 1, 2])
+        col = [NIL] * min(lead, max(0, n - 1))
+        col.append(("str", rng.choice(STRS + bad)))
+        while len(col) < n:
+            r = rng.random()
+            if r < 0.4:
+                col.append(("str", rng.choice(bad)))
+            elif r < 0.6:
+                col.append(("bin", rng.choice([b"zz", b"", b"\xff"])))
+            elif r < 0.75:
+                col.append(NIL)
+            else:
+                col.append(rstr(rng))
+        return col[:n]
     if cls in ("intf", "fint"):
         # coercion tables: an int column holding floats (toInt64 bounds / truncation) or a float column holding ints
         bound = [F64(2.0 ** 63), F64(-2.0 ** 63), F64(2.0 ** 63 * (1 + 2.0 ** -52)), F64(-2.0 ** 63 * (1 + 2.0 ** -52)),
@@ -317,7 +334,7 @@ def gen_ast(rng):
 
 
 def witnesses():
-    """the refutation witnesses of Props.v and their neighbours, always run first"""
+    """the regression witnesses of Props.v (inputs on which the code before 1ff6fb4 differed) and their neighbours, always run first"""
     t = ("time", A(I(1_700_000_000), I(1_700_000_001)))
     w = {
         "dup-later-nonarray": M(("m", S("cpu")), ("columns", M(("time", A(I(1_700_000_000))), ("a", A(I(1))), ("a", I(5))))),
@@ -612,7 +629,7 @@ def run(res, tier, seed):
         res.stage("anchor_check", t0)
     res.cov["params"] = anchor
 
-    nstruct, nmut = (2200, 600) if tier == "quick" else (40000, 10000)
+    nstruct, nmut = (1500, 400) if tier == "quick" else (40000, 10000)
     t1 = time.time()
     wit = witnesses()
     asts, labels = list(wit.values()), list(wit.keys())
